@@ -2,6 +2,8 @@
 import os, re, subprocess, signal, time, tempfile
 
 CALLS = "openat,flock,read,pread64,write,rename,renameat,renameat2,fsync,ftruncate,close,unlink,unlinkat"
+# the calls by which a process *looks at* names before it opens anything: where a time-of-check/time-of-use gap between two processes starts
+STAT_CALLS = "newfstatat,stat,lstat,statx,access,faccessat,faccessat2"
 LINE = re.compile(r"^(?:\[pid\s+(\d+)\]\s+|(\d+)\s+)?(\w+)\((.*)\)\s+=\s+(-?\d+|\?)(?:\s+(\w+))?")
 
 
@@ -10,14 +12,14 @@ def paths(store):
     return [os.path.join(d, n) for n in ("lock", "plans.jsonl", "plans.jsonl.tmp", "events.jsonl", "events.jsonl.tmp")] + [d]
 
 
-def _cmd(store, argv, extra, binary=None):
-    c = ["strace", "-f", "-y", "-qq", "-e", "trace=" + CALLS]
+def _cmd(store, argv, extra, binary=None, calls=None):
+    c = ["strace", "-f", "-y", "-qq", "-e", "trace=" + (calls or CALLS)]
     for p in paths(store):
         c += ["-P", p]
     return c + extra + [binary or store.bin] + argv
 
 
-def run(store, argv, stdin=None, env=None, extra=(), timeout=30, binary=None):
+def run(store, argv, stdin=None, env=None, extra=(), timeout=30, binary=None, calls=None):
     """returns (exit, stdout, stderr_of_ergo_and_strace_lines, steps)"""
     tf = tempfile.NamedTemporaryFile(prefix="ergo-strace-", delete=False)
     tf.close()
@@ -26,7 +28,7 @@ def run(store, argv, stdin=None, env=None, extra=(), timeout=30, binary=None):
         e.update(env)
     kw = {"stdin": subprocess.DEVNULL} if stdin is None else {"input": stdin}
     try:
-        r = subprocess.run(_cmd(store, argv, ["-o", tf.name] + list(extra), binary), cwd=store.root, capture_output=True, env=e, timeout=timeout, **kw)
+        r = subprocess.run(_cmd(store, argv, ["-o", tf.name] + list(extra), binary, calls), cwd=store.root, capture_output=True, env=e, timeout=timeout, **kw)
         steps = parse(open(tf.name).read(), store)
         return r.returncode, r.stdout.decode("utf-8", "replace"), r.stderr.decode("utf-8", "replace"), steps
     finally:
